@@ -20,6 +20,9 @@ CLAIMED = {
  "C11": ("E2 product (complete)",
          "all lists of length 0..4 (quick) / 0..7 (thorough) and strings of length 0..5 / 0..7 plus multi-byte strings x every index in [-2,len+2] x every bound pair in ([-2,len+2] + omitted)^2 x element assignment x range assignment from lists, strings (ASCII and multi-byte) and the list itself of every length 0..len+1 x all concatenation length pairs x non-integer index kinds; oracle = slice model written from the statement (definedness domain + value) and the laws s[:k]+s[k:]==s, (s+t)[len(s)+i]==t[i] evaluated by the subject",
          "exhaustive enumeration of all sequences/indices/bounds up to a length bound on the real interpreter against a sequence model"),
+ "C12": ("E1 breadth-first history exploration with map-state deduplication + E2 product",
+         "all histories of <= 5 (quick) / <= 7 (thorough) operations from 45 operations on objects o, p over the keys a, b, B, empty, 'a b', '1' (insert / overwrite through [] and ., computed and interpolated keys, op-assign both ways and on missing keys, spread before / after pairs and shorthands, collect, alias); states merged on the sorted contents; each history completed by printing, iterating, reading every present key both ways, comparing both ways and reading an absent key; plus all object literals of <= 3 (thorough 4) entries over 12 entry forms and 11 rejected entry forms; oracle = reference model (sorted association list)",
+         "explicit-state breadth-first exploration with canonical-state deduplication on the real interpreter against a reference model"),
  "C14": ("E1 breadth-first history exploration with provenance-state deduplication + E2 product",
          "all histories of <= 6 (quick) / <= 8 (thorough) operations from 36 operations that attach a function to objects, read it through . / [], move the value through variables, arguments, list elements, returns, destructuring and other objects, and call it; states merged on the (function, provenance) content of every holder; each history completed by calling every holder; plus arity 0..4 x rest x 0..5 arguments x every plain/spread split with printing arguments, parameter-freshness and callee-order programs; oracle = reference model with explicit provenance",
          "explicit-state breadth-first exploration with canonical-state deduplication on the real interpreter against a reference model"),
